@@ -185,6 +185,11 @@ func runC13(r *Run, p *Prog) {
 				r.Unresolved("M1", name)
 				continue
 			}
+			// (with the package's unexported helpers inlined: the stores through the pointer parameters may be
+			// written in a helper shared by the client-side GetInfo functions; the exported API stays calls)
+			f = p.Inlined(f, func(callee *ssa.Function) bool {
+				return fnPkgPath(callee) != pkgVarlink || callee.Object() != nil && callee.Object().Exported()
+			})
 			// the reply struct: Alloc passed to Call as out parameter
 			var rep *ssa.Alloc
 			for _, cs := range callsNamed(f, false, "varlink.Connection.Call") {
